@@ -47,7 +47,10 @@ theorem rdCond_ex (h : ExprRT pe re φ P) {c : X} (hc : P c) :
     Ev (fun f => rdCond re f (ex (pe c) ++ [.e .rp, kw "then"])) (φ c) := by
   refine Ev.congr (fun f => ?_) (rdE_ex h hc)
   have e1 : ex (pe c) ++ [STok.e Tok.rp, kw "then"] = (ex (pe c) ++ [STok.e Tok.rp]) ++ [kw "then"] := by simp
-  simp [rdCond, e1, splitLast_append]
+  unfold rdCond
+  rw [e1, splitLast_append]
+  simp only [Option.bind_some, Option.pure_def, bind, splitLast_append]
+  simp
 
 theorem ex_ne_nil (h : ExprRT pe re φ P) {x : X} (hx : P x) : ex (pe x) ≠ [] := by
   have := h.ne x hx
@@ -61,24 +64,36 @@ theorem rdDo_ex (h : ExprRT pe re φ P) (isOne : X → Bool) {lo hi : X} (step :
        | none => []))) (φ lo, φ hi, (normStep isOne step).map φ) := by
   obtain ⟨f1, g1⟩ := rdE_ex h hlo
   obtain ⟨f2, g2⟩ := rdE_ex h hhi
-  have two : splitComma (ex (pe lo) ++ [.comma] ++ ex (pe hi)) = [ex (pe lo), ex (pe hi)] := by
+  have two : splitComma (ex (pe lo) ++ STok.comma :: ex (pe hi)) = [ex (pe lo), ex (pe hi)] := by
     have := splitComma_commaSep (ex (pe lo)) [ex (pe hi)] (by intro x hx; simp at hx; rcases hx with rfl | rfl <;> exact noComma_ex _)
     simpa [commaSep] using this
   cases step with
   | none =>
     refine ⟨max f1 f2, fun f hle => ?_⟩
-    simp [rdDo, two, normStep, g1 f (by omega), g2 f (by omega)]
+    have a1 : rdE re f (ex (pe lo)) = some (φ lo) := g1 f (by omega)
+    have a2 : rdE re f (ex (pe hi)) = some (φ hi) := g2 f (by omega)
+    simp only [List.append_assoc, List.singleton_append, List.append_nil, rdDo, two]
+    simp [a1, a2, normStep]
   | some s =>
     by_cases ho : isOne s = true
     · refine ⟨max f1 f2, fun f hle => ?_⟩
-      simp [rdDo, two, normStep, ho, g1 f (by omega), g2 f (by omega)]
+      have a1 : rdE re f (ex (pe lo)) = some (φ lo) := g1 f (by omega)
+      have a2 : rdE re f (ex (pe hi)) = some (φ hi) := g2 f (by omega)
+      simp only [ho, if_true, List.append_assoc, List.singleton_append, List.append_nil, rdDo, two]
+      simp [a1, a2, normStep, ho]
     · obtain ⟨f3, g3⟩ := rdE_ex h (hs s rfl)
-      have three : splitComma (ex (pe lo) ++ [.comma] ++ ex (pe hi) ++ ([.comma] ++ ex (pe s))) = [ex (pe lo), ex (pe hi), ex (pe s)] := by
+      have three : splitComma (ex (pe lo) ++ STok.comma :: (ex (pe hi) ++ STok.comma :: ex (pe s))) = [ex (pe lo), ex (pe hi), ex (pe s)] := by
         have := splitComma_commaSep (ex (pe lo)) [ex (pe hi), ex (pe s)]
           (by intro x hx; simp at hx; rcases hx with rfl | rfl | rfl <;> exact noComma_ex _)
         simpa [commaSep] using this
       refine ⟨max f1 (max f2 f3), fun f hle => ?_⟩
-      simp [rdDo, three, normStep, ho, g1 f (by omega), g2 f (by omega), g3 f (by omega)]
+      have a1 : rdE re f (ex (pe lo)) = some (φ lo) := g1 f (by omega)
+      have a2 : rdE re f (ex (pe hi)) = some (φ hi) := g2 f (by omega)
+      have a3 : rdE re f (ex (pe s)) = some (φ s) := g3 f (by omega)
+      have ho' : isOne s = false := by simpa using ho
+      simp only [ho', Bool.false_eq_true, if_false, List.append_assoc, List.singleton_append, List.cons_append, List.nil_append, List.append_nil, rdDo]
+      rw [three]
+      simp [a1, a2, a3, normStep, ho']
 
 end
 end LokiModel.C02
